@@ -11,13 +11,13 @@ RULE = ("a Hypothesis generator assembles well-typed base programs from typed sn
         "call arguments, returns, conditions of if / else-if / while / assert, list index and element, operators, field and "
         "method use, from-loop bounds and step, map key and value, function- / class- / map-typed positions, fixed-shape list "
         "literals) placed in syntactic contexts (module level, function, closure, method, functions and methods whose returns sit "
-        "in if / else-if / else arms, else-if arm, loop body, through a type alias, in an imported module); every typed SITE of the "
+        "in if / else-if / else arms or inside a loop that precedes the trailing return, else-if arm, loop body, through a type alias, in an imported module); every typed SITE of the "
         "program is recorded; the control (base program) must compile and run; then EVERY applicable fault of a fixed catalogue "
         "is applied at EVERY site, one at a time: value of another kind family (number / str / bool / list / function / object), "
         "a present OPTIONAL of the expected type, a near-miss function / list / map / class type, a fixed-shape list literal with "
         "a wrong / extra / missing element, a return statement replaced by a print (missing return on one path), "
         "one argument more / fewer, bare return, value returned from a void function, undeclared identifier, unknown field / "
-        "method, call of a non-function, index of a non-indexable, operator on unsupported kinds. Oracle per mutant: exit status "
+        "method, a method read as a value or a field called at the end of a dot chain of one to three links, call of a non-function, index of a non-indexable, operator on unsupported kinds. Oracle per mutant: exit status "
         "1 (not 101/134), a diagnostic `--> <right file>:<line of the mutated statement>:col`, and none of the program's output "
         "(`@START` is its first statement). evaluations = mutants. Non-trivial = the site is nested (not a top-level statement of "
         "the entry module); distinct by (program, site, fault)")
@@ -92,6 +92,16 @@ takes_g = fn(o: G) -> int {
 takes_m = fn(m: map[str, int]) -> int {
 	return m.len()
 }
+class W {
+	inner: G
+	constructor(self) {
+		self.inner = G()
+	}
+	fn me(self) -> Self {
+		return self
+	}
+}
+g_w = W()
 g_oint: int? = 5
 g_ostr: str? = "s"
 g_obool: bool? = true
@@ -203,11 +213,20 @@ def snippet(b, kinds=None, in_fn_ret=None):
         b.add("%s = %s %s 0b1" % (v, b.site("num", "0b11", "operand-with-byte", op), op))
     elif choice == "member":
         v = b.name()
-        k = g.choice(["field", "method", "setarg"])
-        if k == "field":
+        k = g.choice(["field", "method", "setarg", "chain-field", "chain-method", "chain-call-method"])
+        if k == "chain-field":
+            b.add("%s = g_w.inner.%s" % (v, b.site("member", "n", "member")))
+        elif k == "chain-method":
+            b.add("%s = g_w.inner.%s" % (v, b.site("mcall", "get_n()", "mcall")))
+        elif k == "chain-call-method":
+            b.add("%s = g_w.me().inner.%s" % (v, b.site("mcall", "get_n()", "mcall")))
+        elif k == "field":
             b.add("%s = g_obj.%s" % (v, b.site("member", "n", "member")))
         elif k == "method":
-            b.add("%s = g_obj.%s()" % (v, b.site("member", "get_n", "member")))
+            if g.chance(50):
+                b.add("%s = g_obj.%s()" % (v, b.site("member", "get_n", "member")))
+            else:
+                b.add("%s = g_obj.%s" % (v, b.site("mcall", "get_n()", "mcall")))
         else:
             b.add("g_obj.set_n(%s)" % b.site("num", "4"))
     elif choice == "loop":
@@ -268,7 +287,7 @@ def gen_program(g):
     main = Builder(g, "main.ms")
     lib = None
     main.add("print \"@START\"")
-    ctxs = [g.choice(["module", "function", "closure", "method", "loop", "elif", "import", "module", "function", "branchfn"]) for _ in range(g.int(2, 5))]
+    ctxs = [g.choice(["module", "function", "closure", "method", "loop", "elif", "import", "module", "function", "branchfn", "loopfn"]) for _ in range(g.int(2, 5))]
     for ci, ctx in enumerate(ctxs):
         n = g.int(1, 3)
         if ctx == "module":
@@ -329,6 +348,49 @@ def gen_program(g):
                 main.add("}")
                 main.add("b%d = Br%d()" % (ci, ci))
                 main.add("print b%d.pick(%s)" % (ci, main.site("num", "3")))
+            else:
+                main.add("print %s(%s)" % (fname, main.site("num", "3")))
+        elif ctx == "loopfn":
+            # a value-returning function / method whose last statement before the trailing return is a loop that returns:
+            # without the trailing return some path (break, zero iterations, a false condition) falls off the end
+            shape = g.choice(["while-true-break", "while-true", "while-cond", "from", "while-true-if-return"])
+            method = g.chance(35)
+            fname = main.name("lf")
+            if method:
+                main.add("class Lp%d {" % ci)
+                main.indent += 1
+                main.add("fn scan(self, pa: int) -> int {")
+            else:
+                main.add("%s = fn(pa: int) -> int {" % fname)
+            main.indent += 1
+            main.add("k = 0")
+            head = {"while-true-break": "while true {", "while-true": "while true {", "while-cond": "while k < pa {", "from": "from 0 to pa {", "while-true-if-return": "while true {"}[shape]
+            main.add(head)
+            main.indent += 1
+            main.add("k = k + 1")
+            if shape == "while-true-break":
+                main.add("if k > pa {")
+                main.add("\tbreak")
+                main.add("}")
+            if shape == "while-true-if-return":
+                main.add("if k > 1 {")
+                main.add("\treturn %s" % main.site("num", "(pa + k)", "return-inner"))
+                main.add("}")
+                main.add("if k > 3 {")
+                main.add("\tbreak")
+                main.add("}")
+            else:
+                main.add("return %s" % main.site("num", "(pa + k)", "return-inner"))
+            main.indent -= 1
+            main.add("}")
+            main.add("return %s" % main.site("num", "k", "return"))
+            main.indent -= 1
+            main.add("}")
+            if method:
+                main.indent -= 1
+                main.add("}")
+                main.add("lp%d = Lp%d()" % (ci, ci))
+                main.add("print lp%d.scan(%s)" % (ci, main.site("num", "3")))
             else:
                 main.add("print %s(%s)" % (fname, main.site("num", "3")))
         elif ctx == "closure":
@@ -437,7 +499,7 @@ def faults(site):
     """[(fault name, replacement text)]"""
     out = []
     k = site.kind
-    if k in ("value", "return", "index", "operand"):
+    if k in ("value", "return", "return-inner", "index", "operand"):
         fam = site.family
         for w in WRONG.get(fam, []):
             if k == "operand" and site.extra == "*" and w in ("\"txt\"", "g_list"):
@@ -446,8 +508,9 @@ def faults(site):
         out.append(("undeclared-name", "undeclared_zz"))
         if k != "operand" and fam in OPTIONAL_OF:
             out.append(("optional-of-expected:" + OPTIONAL_OF[fam], OPTIONAL_OF[fam]))
-        if k == "return":
+        if k in ("return", "return-inner"):
             out.append(("bare-return", ""))
+        if k == "return":
             out.append(("missing-return", None))               # handled specially: the return statement becomes a print
         if k == "index":
             out += [("index-str", "\"0\""), ("index-bool", "true")]
@@ -462,6 +525,9 @@ def faults(site):
         out += [("index-of-int", "(g_obj.n)"), ("index-of-bool", "true"), ("index-of-fn", "g_fn"), ("undeclared-name", "undeclared_zz")]
     elif k == "member":
         out += [("unknown-member", "nosuch"), ("unknown-member", "get_m")]
+    elif k == "mcall":
+        # the last link of a dot chain is a method call: a method read as a value, a field called, an unknown method, wrong arity
+        out += [("method-as-value", "get_n"), ("call-of-field", "n()"), ("unknown-member", "nosuch()"), ("one-arg-more", "get_n(1)"), ("method-as-value", "set_n")]
     elif k == "callee":
         out += [("call-of-int", "(g_obj.n)" + site.extra), ("call-of-str", "\"f\"" + site.extra), ("call-of-list", "g_list" + site.extra), ("undeclared-name", "undeclared_zz" + site.extra)]
     elif k == "voidreturn":
